@@ -252,6 +252,13 @@ _T = [
     ("rightrec", "op-distinct", 'forall <item> i: (distinct i "b")', "sat"),
     ("num", "op-int-comparisons", 'forall <digit> d: (str.to.int(d) >= 1 and str.to.int(d) <= 2 and '
      'str.to.int(d) > 0 and str.to.int(d) < 9)', "sat"),
+    # a top-level existential quantifier conjoined with a universal one (every solution has to satisfy BOTH
+    # conjuncts; with activate_unsat_support the solver checks the existential conjunct on its own first)
+    ("assgn", "exists-and-forall",
+     '(exists <assgn> a="{<var> l} := <rhs>" in start: l = "c") and (forall <digit> d in start: d = "2")', "sat"),
+    ("rightrec", "exists-and-forall", '(exists <item> i in start: i = "b") and (forall <list> l in start: str.len(l) <= 3)', "sat"),
+    ("altstart", "exists-and-forall",
+     '(exists <pair> p in start: p = "j=1") and (forall <val> v in start: v = "1")', "sat"),
 ]
 
 TEMPLATES: List[Dict[str, Any]] = [
@@ -422,6 +429,20 @@ def select_cases(tier: str, seed: int, salt: str = "C01", quick_total: int = 150
             if case["cid"] not in seen:
                 seen.add(case["cid"])
                 cases.append(case)
+    # the solver's unsat support (a nested solve() for every existential conjunct): templates with an existential
+    # quantifier, default settings otherwise
+    with_exists = [t for t in solvable if t["text"] and "exists" in t["text"] and t["grammar"] != "wide"]
+    pri = [t for t in with_exists if t["cls"] == "exists-and-forall"]
+    others = [t for t in with_exists if t["cls"] != "exists-and-forall"]
+    rng_u = random.Random(f"{salt}:{seed}:unsat-support")
+    rng_u.shuffle(others)
+    for tpl in pri + others[: (12 if tier == "quick" else 60)]:
+        case = make_case(tpl, DEFAULT_SETTINGS)
+        case["cid"] += "|unsat-support"
+        case["extra_kwargs"] = {"activate_unsat_support": True}
+        if case["cid"] not in seen:
+            seen.add(case["cid"])
+            cases.append(case)
     if tier == "quick":
         for tpl in solvable:
             add(tpl, grid[rng.randrange(len(grid))])
